@@ -188,6 +188,22 @@ def r_append(F, R, cat=None, only=None):
                         viol = "item storage of type %s replaced by assignment" % st
                     elif "[]" in rest and st == "?elem":
                         viol = "store through an element of item storage"
+                    elif "[]" in rest and e.ctx is not None:
+                        # an in-place update of a stored element (`*bytes.last_mut().unwrap() |= x`):
+                        # merging a whole foreign value into it rewrites bits that belong to an
+                        # earlier item; a masked merge may be sound (bit arithmetic: not decided)
+                        from expr import nobb as _nobb
+                        from r_alloc import walk as _walk
+                        val = _nobb(trees(e.ctx, e.value)) if e.value else ("opaque", "?")
+                        if val[0] == "bin" and val[1] in ("BitOr", "Add", "BitXor"):
+                            foreign = val[3]
+                            masked = any(nd[0] == "bin" and nd[1] in ("BitAnd", "Shl", "Shr", "Rem", "Div") for nd in _walk(foreign))
+                            if not masked and foreign[0] != "const":
+                                viol = "a stored element is merged in place with the unmasked value %s" % show(foreign)[:50]
+                            else:
+                                R.undecided_site("R-APPEND", b.label(), "in-place update of a stored element at %s (masked merge: bit arithmetic not decided)" % e.where())
+                        else:
+                            R.undecided_site("R-APPEND", b.label(), "in-place update of a stored element at %s" % e.where())
                 elif e.cls == "unclassified" and any(a for a in (e.argorigins or [])):
                     R.undecided_site("R-APPEND", b.label(), "unclassified callee %s::%s receives %s" % (
                         e.tag[0], e.tag[1], f or "self"))
